@@ -12,6 +12,7 @@ import (
 	"strconv"
 	"strings"
 	"unicode"
+	"unicode/utf16"
 	"unicode/utf8"
 )
 
@@ -59,6 +60,47 @@ func parseField(field string, line int) (any, error) {
 		return boolean, nil
 	}
 	return nil, fmt.Errorf("not a valid JSON - invalid value '%s' on line %d", field, line)
+}
+
+/*
+Decodes the content of a JSON string literal (without the surrounding quotes).
+The escapes which JSON has on top of the Go syntax (escaped slash and surrogate pairs) are resolved first,
+the rest is left to the Go unquoting.
+Parameters:
+  - raw - content of the literal.
+
+Returns:
+  - decoded string.
+*/
+func unquote(raw string) string {
+	var result strings.Builder
+	for i := 0; i < len(raw); i++ {
+		if raw[i] != '\\' || i+1 == len(raw) {
+			result.WriteByte(raw[i])
+			continue
+		}
+		if raw[i+1] == '/' {
+			result.WriteByte('/')
+			i++
+			continue
+		}
+		if raw[i+1] == 'u' && i+12 <= len(raw) && raw[i+6] == '\\' && raw[i+7] == 'u' {
+			high, highErr := strconv.ParseUint(raw[i+2:i+6], 16, 16)
+			low, lowErr := strconv.ParseUint(raw[i+8:i+12], 16, 16)
+			if highErr == nil && lowErr == nil {
+				if char := utf16.DecodeRune(rune(high), rune(low)); char != utf8.RuneError {
+					result.WriteRune(char)
+					i += 11
+					continue
+				}
+			}
+		}
+		result.WriteByte(raw[i])
+		result.WriteByte(raw[i+1])
+		i++
+	}
+	str, _ := strconv.Unquote(`"` + result.String() + `"`)
+	return str
 }
 
 /*
@@ -168,7 +210,7 @@ func parseList(json string, line *int) (List, int, error) {
 				continue
 			}
 			if char == '"' {
-				str, _ := strconv.Unquote(fmt.Sprintf(`"%s"`, val.String()))
+				str := unquote(val.String())
 				list.Add(str)
 				val.Reset()
 				state = stateValAfterString
@@ -279,7 +321,7 @@ func parseObject(json string, line *int) (Object, int, error) {
 			if char != ':' {
 				return nil, 0, fmt.Errorf("not a valid JSON - expecting ':', got '%s' on line %d", string(char), *line)
 			}
-			str, _ := strconv.Unquote(fmt.Sprintf(`"%s"`, key.String()))
+			str := unquote(key.String())
 			key.Reset()
 			key.WriteString(str)
 			val.Reset()
@@ -378,7 +420,7 @@ func parseObject(json string, line *int) (Object, int, error) {
 				continue
 			}
 			if char == '"' {
-				str, _ := strconv.Unquote(fmt.Sprintf(`"%s"`, val.String()))
+				str := unquote(val.String())
 				object.Set(key.String(), str)
 				state = stateValAfterString
 				continue
